@@ -65,4 +65,10 @@ theorem C02_whole_with_attachments (atts : Nat → List Nat) (sys : Nat) (lens :
       = ((routs (init sys lens threads) as).flatMap delivOf).map atts :=
   att_init atts sys lens threads as
 
+/-- **C02_shape_followups_blocking** — the model's receiver stays with a message from its first packet until the message is complete or
+found truncated (`cur`); the source does the same: inside the reassembly loop the follow-up fragments are read with a plain
+blocking `recv` on the dedicated socket, with no poll, time-out or non-blocking flag — whatever receive call the program
+used (regenerated from `recv`). -/
+theorem C02_shape_followups_blocking : Gen.shape_followupsBlocking = true := by decide
+
 end C02
